@@ -9,9 +9,10 @@ import PartituraModel.Proofs.C03Notations
 import PartituraModel.Proofs.C03Attr
 import PartituraModel.Proofs.C03Slots
 import PartituraModel.Proofs.C03Fix
+import PartituraModel.Proofs.C03Float
 
 namespace C03
-open Model Model.XmlNote Model.XmlDir C03.Text C03.Note
+open Model Model.XmlNote Model.XmlDir Model.Binary64 C03.Text C03.Note
 
 /-- **note_roundtrip.**  For every note/rest/unpitched/grace note whose text fields are not empty strings — every id,
     pitch spelling, duration, chord flag, tie flags, voice, stem, fermata, list of articulations, list of technical
@@ -130,6 +131,50 @@ theorem tempo_roundtrip (t : TempoVal) (h : WellFormedTempo t) : readSound (writ
 
 example : WellFormedTempo (.dec 66 ['5']) := by decide
 example : readSound (writeSound (.dec 66 ['5', '0'])) = some (some (.dec 66 ['5'])) := by decide
+
+/-! ### the tempo as a NUMBER: decimal text → binary64 (`float(text)`, `Model.Binary64.readFloat`)
+
+The quarter tempo of a score is a binary64 number `d = m · 2^e`; the file carries a decimal text.  What the importer gets
+is `readFloat` of the rational the text denotes.  Whether that is `d` again depends on how many digits were written:
+`closeTo d v` (strictly inside the rounding interval of `d`) is the condition, evaluated by the harness on every
+`<sound tempo>` the exporter writes (stream wfsound); Python's `repr` satisfies it, six significant digits do not. -/
+
+/-- **float_reads_nearest.**  Correct rounding (binade by `Nat.log2`, significand by round-half-even, carry into the
+    next binade) returns the binary64 number in whose rounding interval the text lies — for every normal number and every
+    rational strictly inside the interval (half a unit in the last place above, half — a quarter at a power of two —
+    below). -/
+theorem float_reads_nearest (d : Dbl) (hn : d.Normal) (v : Rat) (hc : closeTo d v = true) : readFloat v = d :=
+  C03.Float.readFloat_of_close d hn v hc
+
+/-- **float_reads_itself.**  The exact value (what `int(qtempo)` prints for a whole tempo, whatever its size) is read back. -/
+theorem float_reads_itself (d : Dbl) (hn : d.Normal) : readFloat d.value = d := C03.Float.readFloat_exact d hn
+
+/-- **seventeen_digits_suffice.**  Any decimal within 5·10⁻¹⁷ (relative) of a normal binary64 number — the value rounded to
+    17 significant digits — is read as that number. -/
+theorem seventeen_digits_suffice (d : Dbl) (hn : d.Normal) (v : Rat) (h : |v - d.value| * 10 ^ 17 ≤ 5 * d.value) :
+    readFloat v = d := C03.Float.seventeen_digits d hn v h
+
+/-- **too_few_digits_lose.**  Conversely: a positive text further than half a unit in the last place from `d` is read as
+    another number — whatever the number of digits that caused it. -/
+theorem too_few_digits_lose (d : Dbl) (v : Rat) (hv : 0 < v) (h : pow2 (d.e - 1) < |v - d.value|) : readFloat v ≠ d :=
+  C03.Float.readFloat_ne_of_far d v hv h
+
+/-- **tempo_number_roundtrip.**  `<sound tempo>` down to the number: when the decimal the exporter writes lies inside the
+    rounding interval of the score's quarter tempo `d`, `float(e.attrib["tempo"])` of the element written is `d`. -/
+theorem tempo_number_roundtrip (t : TempoVal) (h : WellFormedTempo t) (d : Dbl) (hn : d.Normal)
+    (hc : closeTo d (tempoValue t) = true) : readSoundFloat (writeSound t) = some (some d) :=
+  C03.Float.sound_float_roundtrip t h d hn hc
+
+/-- 60 / 0.45 = 133.33333333333334 = 4691249611844267 · 2⁻⁴⁵: its `repr` is inside the interval … -/
+example : (⟨4691249611844267, -45⟩ : Dbl).Normal ∧
+    closeTo ⟨4691249611844267, -45⟩ (tempoValue (.dec 133 "33333333333334".toList)) = true := by decide +kernel
+/-- … six significant digits (`"{:g}"`) are not, and come back as another tempo -/
+example : closeTo ⟨4691249611844267, -45⟩ (tempoValue (.dec 133 "333".toList)) = false ∧
+    readSoundFloat (writeSound (.dec 133 "333".toList)) = some (some ⟨4691237883720237, -45⟩) := by decide +kernel
+/-- a whole tempo beyond 2⁵³ (10²² = 5421010862427522 · 2²¹) is written with all its digits and read back -/
+example : readFloat (tempoValue (.whole (10 ^ 22))) = ⟨5421010862427522, 21⟩ := by decide +kernel
+/-- the carry into the next binade: just below a power of two -/
+example : readFloat (tempoValue (.dec 127 "99999999999999999".toList)) = ⟨2 ^ 52, -45⟩ := by decide +kernel
 
 /-- **attributes_roundtrip.**  For every list of entries of one `<attributes>` element (divisions, key signatures with or
     without mode, time signatures, staff details, clefs of any staff with or without octave change, in any order and
